@@ -417,7 +417,6 @@ pub mod proofs {
         c40_git1_t2 = (b"git~1", 5, 2, 7),
         c40_gitmodules_t2 = (b".gitmodules", 11, 2, 13),
         c40_gitmod_t3 = (b"gitmod~", 7, 3, 10),
-        c40_bs_dotgit_t1 = (b"a\\.git", 6, 1, 7),
     );
 
     /// Known finding C40-F12: components containing a backslash with protect_ntfs on and protect_windows off.
@@ -515,6 +514,47 @@ pub mod proofs {
         c40_hfs_gitmodules_p5 = (b".gitmodules", 11, 5, 15),
         c40_hfs_gitmodules_p11 = (b".gitmodules", 11, 11, 15),
     );
+
+    /// Cheaper variant for the quick tier: lower-case `.git`, one ignorable code point (symbolic choice among the 16) at P, no tail.
+    pub fn hfs_simple<const P: usize>() {
+        let which: u8 = kani::any();
+        kani::assume(which < 16);
+        let cp: [u8; 3] = match which {
+            0..=3 => [0xe2, 0x80, 0x8c + which],
+            4..=8 => [0xe2, 0x80, 0xaa + (which - 4)],
+            9..=14 => [0xe2, 0x81, 0xaa + (which - 9)],
+            _ => [0xef, 0xbb, 0xbf],
+        };
+        let head = b".git";
+        let mut x = [0u8; 7];
+        let mut o = 0;
+        let mut i = 0;
+        while i <= 4 {
+            if i == P {
+                x[o] = cp[0];
+                x[o + 1] = cp[1];
+                x[o + 2] = cp[2];
+                o += 3;
+            }
+            if i < 4 {
+                x[o] = head[i];
+                o += 1;
+            }
+            i += 1;
+        }
+        let (symlink, opts) = any_opts();
+        check(&x, symlink, opts);
+    }
+    #[kani::proof]
+    #[kani::unwind(18)]
+    pub fn c40_hfs_simple_p2() {
+        hfs_simple::<2>()
+    }
+    #[kani::proof]
+    #[kani::unwind(18)]
+    pub fn c40_hfs_simple_p4() {
+        hfs_simple::<4>()
+    }
 
     /// Windows device names (any case) with a symbolic tail are refused when Windows protections are on.
     pub fn device<const H: usize, const T: usize, const TOT: usize>(head: &[u8; H]) {
